@@ -2162,9 +2162,17 @@ fn gen_c03(r: &mut Rng, seed: u64) -> Scenario {
     let mut phases: Vec<&'static str> = Vec::new();
     for i in 0..nsig {
         let (trig, phase) = signal_trigger(r, n);
-        let signo = *r.pick(&HANDLED_SIGNALS);
+        let mut signo = *r.pick(&HANDLED_SIGNALS);
         let id = 100 + i as u32;
-        let what = if r.chance(1, 4) { EventKind::SignalProcess { signo, id } } else { EventKind::SignalThread { tid: tid_of(r.below(n as u64) as usize), signo, id } };
+        let job_control = r.chance(1, 12);
+        if job_control {
+            // job-control stop signals for which the target has installed handlers
+            signo = *r.pick(&[20, 21, 22]);
+            if !tags.contains(&"job-control-signal".to_string()) {
+                tags.push("job-control-signal".into());
+            }
+        }
+        let what = if !job_control && r.chance(1, 4) { EventKind::SignalProcess { signo, id } } else { EventKind::SignalThread { tid: tid_of(r.below(n as u64) as usize), signo, id } };
         events.push(Event { trig, what });
         if !phases.contains(&phase) {
             phases.push(phase);
@@ -2585,7 +2593,16 @@ fn gen_c02(r: &mut Rng, seed: u64) -> Scenario {
                 if let Workload::Dump(p) = &mut sc.workload {
                     p.opts.stop_timeout_ms = Some(*r.pick(&[0u64, 1, 5, 100]));
                 }
-                if r.chance(1, 3) && sc.world.threads.len() > 1 {
+                if r.chance(1, 4) {
+                    // "wait as long as it takes" (Duration::MAX): only where the stop does arrive
+                    for t in sc.world.threads.iter_mut() {
+                        t.stop_latency_ns = t.stop_latency_ns.min(150_000_000);
+                    }
+                    if let Workload::Dump(p) = &mut sc.workload {
+                        p.opts.stop_timeout_ms = Some(u64::MAX);
+                    }
+                    push_tags(&mut tags, &["h:stop-timeout-max"]);
+                } else if r.chance(1, 3) && sc.world.threads.len() > 1 {
                     let blamed = match &sc.workload { Workload::Dump(p) => p.opts.blamed, _ => PID };
                     if blamed != PID {
                         sc.world.threads[0].zombie = true;
@@ -2603,6 +2620,16 @@ fn gen_c02(r: &mut Rng, seed: u64) -> Scenario {
                     // outlives the target)
                     reader_knob_forced(r, &mut sc.faults, &mut tags, kind == CallKind::PtracePeekdata);
                 }
+            }
+        }
+    }
+    // an unlimited stop timeout is a request to wait for as long as the stop takes: keep it for worlds
+    // where the stop does arrive (a zombie leader never shows state T, a late stopper needs its time)
+    if let Workload::Dump(p) = &mut sc.workload {
+        if p.opts.stop_timeout_ms == Some(u64::MAX) {
+            let never = sc.world.threads.first().map(|t| t.zombie || t.foreign_tracer).unwrap_or(false) || !sc.events.is_empty() || sc.world.threads.iter().any(|t| t.stop_latency_ns > 150_000_000 || t.blocked_until_ns > 0) || sc.faults.iter().any(|f| f.trig.kind == CallKind::Kill);
+            if never {
+                p.opts.stop_timeout_ms = Some(100);
             }
         }
     }
